@@ -22,7 +22,13 @@ from .. import impl_l1d as I
 from ..core import Check, NPROC
 from . import c17
 
-THEOREMS = {n: "Props.C09" for n in ["C09_seq_noop", "C09_seq_commit", "C09_l1d_noop", "C09_l1d_commit"]}
+THEOREMS = {n: "Props.C09" for n in ["C09_seq_noop", "C09_seq_commit", "C09_l1d_noop", "C09_l1d_commit",
+                                     "C09_avg_noop", "C09_avg_commit",
+                                     "C09_avg1d_noop_partial", "C09_avg1d_commit_partial"]}
+
+# what chk.prove builds: the property file and the Run files of every correspondence of this check
+VO_TARGETS = ["theories/Props/C09.vo", "theories/Run/SeqRun.vo", "theories/Run/L1DRun.vo", "theories/Run/AvgRun.vo",
+              "theories/Run/BookkeepingRun.vo"]
 
 # signatures of defects already known on the unchanged tree (DESIGN section 9); identical strings go into
 # known_findings.json when the main session decides not to repair them
@@ -61,7 +67,9 @@ def base_specs():
             {"kind": "Avg1D"}, {"kind": "Avg1D", "min_samples": 2, "delta": 0.6},
             {"kind": "Seq"}, {"kind": "Seq", "n": 7, "elements": "int"},
             {"kind": "Int"}, {"kind": "Int", "tol": 1e-2},
-            {"kind": "L2D"}]
+            {"kind": "L2D"},
+            # axes with different (here: disjoint) ranges
+            {"kind": "LND", "bounds": [[0.0, 1.0], [2.0, 3.0]]}, {"kind": "L2D", "bounds": [[0.0, 1.0], [2.0, 3.0]]}]
 
 
 def child_spec(kind):
@@ -832,11 +840,82 @@ def correspondence(chk: Check):
     chk.log(f"correspondence: Seq {chk.extra['seq_correspondence']}, L1D {chk.extra['l1d_correspondence']}")
 
 
+# ---------------------------------------------------------------- correspondence for the further modelled learners
+# (models owned by other checks; their drivers / printers / Run files are reused, only the op mix is ours)
+def avg_ops(rng, maxlen, p_ask, p_commit):
+    """AverageLearner op list that needs no feedback: seeds from a small range, so that re-tells of known seeds, tells of
+    pending seeds, tell_pending of known / pending / fresh seeds and gaps (fallback branch of ask) all occur by themselves."""
+    ops = []
+    top = rng.choice([6, 10, 16])
+    for _ in range(rng.randint(4, maxlen)):
+        r = rng.random()
+        if r < p_ask:
+            ops.append(("ask", rng.choice([1, 1, 2, 3, 5, 8]) if rng.random() < 0.95 else 0, rng.random() < p_commit))
+        elif r < p_ask + (1 - p_ask) * 0.62:
+            ops.append(("tell", rng.randint(0, top), rng.choice([rng.gauss(0.5, 2.0), float(rng.randint(-3, 3)), 1e-3 * rng.random()])))
+        elif r < p_ask + (1 - p_ask) * 0.85:
+            ops.append(("tell_pending", rng.randint(0, top + 3)))
+        else:
+            ops.append(("remove_unfinished",))
+    return ops
+
+
+def avg_correspondence(chk: Check, tag, p_ask, p_commit):
+    """Model/Avg.v vs the real AverageLearner (bit-exact, inside Coq) on OUR op mix; returns the counters."""
+    from . import c16
+    guard = c16.probe_guard()
+    n = 150 if chk.quick else 1500
+    cases, metas = [], []
+    cnt = {"cases": 0, "ops": 0, "non_committing_asks": 0, "committing_asks": 0, "fallback_asks": 0, "re_tells": 0,
+           "tell_pending_of_known": 0, "discards_with_pending": 0}
+    for k in range(n):
+        rng = chk.rng(tag, k)
+        cfg = c16.gen_avg_cfg(rng)
+        ops = avg_ops(rng, 28 if chk.quick else 80, p_ask, p_commit)
+        steps, _, sqx = c16.avg_drive(cfg, None, 0, concrete=ops)
+        known, pend = set(), False
+        for op, out, o in steps:
+            cnt["ops"] += 1
+            if op[0] == "ask":
+                cnt["committing_asks" if op[2] else "non_committing_asks"] += 1
+                pts = out[0] if out not in (None, "err") else []
+                if pts and pts != list(range(pts[0], pts[0] + len(pts))):
+                    cnt["fallback_asks"] += 1
+            elif op[0] == "tell":
+                cnt["re_tells"] += op[1] in known
+                known.add(op[1])
+            elif op[0] == "tell_pending":
+                cnt["tell_pending_of_known"] += op[1] in known
+            else:
+                cnt["discards_with_pending"] += pend
+            pend = bool(o["pend"])
+        cases.append(c16.avg_case_term(cfg, guard, steps, sqx))
+        metas.append({"kind": "avg", "cfg": cfg, "ops": c16.jsonable_ops(steps)})
+    cnt["cases"] = len(cases)
+    mism, _, errors = chk.coq_cases(tag, c16.PREAMBLE, "acase", cases, "acheck", None, shard=40)
+    for e in errors:
+        chk.broke("correspondence", "Model/Avg.v cases could not be evaluated", e[-600:])
+    for c, s in mism[:3]:
+        chk.broke("correspondence", f"Model/Avg.v vs AverageLearner: case {c} step {s}", dict(metas[c], ops=metas[c]["ops"][:s + 1]))
+    cnt["mismatches"] = len(mism)
+    return cnt
+
+
+def model_correspondences(chk: Check):
+    from .. import impl_bookkeeping as B
+    chk.extra["avg_correspondence"] = avg_correspondence(chk, "avgcases", p_ask=0.40, p_commit=0.45)
+    chk.log(f"correspondence: Avg {chk.extra['avg_correspondence']}")
+    chk.extra["avg1d_pending_correspondence"] = B.d1p_correspondence(
+        chk, "a1dcases", B.MIX_C09, 120 if chk.quick else 1000, 26 if chk.quick else 50)
+    chk.log(f"correspondence: Avg1D+pending {chk.extra['avg1d_pending_correspondence']}")
+
+
 # ---------------------------------------------------------------- driver
 def run(chk: Check) -> int:
     warnings.filterwarnings("ignore")
-    chk.prove(["theories/Props/C09.vo", "theories/Run/SeqRun.vo", "theories/Run/L1DRun.vo"], THEOREMS)
+    chk.prove(VO_TARGETS, THEOREMS)
     correspondence(chk)
+    model_correspondences(chk)
 
     l2d_exc = l2d_smoke()
     if l2d_exc:
